@@ -6,6 +6,7 @@ import Driver.ConcCmds
 open Driver
 
 partial def loop (h : IO.FS.Stream) (out : IO.FS.Stream) (ss : SS) (ns : NS := {}) (cl : CL := {}) : IO Unit := do
+  out.flush
   let line ← h.getLine
   if line.isEmpty then return ()
   let toks := (line.trimAscii.toString.splitOn " ").filter (· ≠ "")
